@@ -162,6 +162,7 @@ CONTROLS = {
         ("DisposeOutPt deletes before unlinking", E, "    op->prev->next = op->next;\n    op->next->prev = op->prev;\n    delete op;", "    delete op;\n    op->prev->next = op->next;\n    op->next->prev = op->prev;", "LINK.consistent-at-throw"),
     ],
     "C11": [
+        ("MakePathD reports a count that shrank, not an odd one", H + "clipper.h", "    if (list.size() != size)\n      DoError(non_pair_error_i);  // non-fatal without exception handling\n    PathD result;", "    if (list.size() < size)\n      DoError(non_pair_error_i);  // non-fatal without exception handling\n    PathD result;", "R8.odd-count"),
         ("ScalePaths computes the bounds only for more than one path", H + "clipper.core.h", "      RectD r = GetBounds<double, T2>(paths);", "      RectD r = (paths.size() > 1) ? GetBounds<double, T2>(paths) : RectD();", "R7.range-table"),
         ("BuildPathsD appends to the caller's closed solution", E, "  void ClipperD::BuildPathsD(PathsD& solutionClosed, PathsD* solutionOpen)\n  {\n    solutionClosed.resize(0);", "  void ClipperD::BuildPathsD(PathsD& solutionClosed, PathsD* solutionOpen)\n  {", "OUTPUT.reset"),
         ('tree overload empties its output only after the precision check', 'CPP/Clipper2Lib/include/clipper2/clipper.h', '    polytree.Clear();\n    int error_code = 0;\n    CheckPrecisionRange(precision, error_code);\n    if (error_code) return;\n    ClipperD clipper(precision);', '    int error_code = 0;\n    CheckPrecisionRange(precision, error_code);\n    if (error_code) return;\n    polytree.Clear();\n    ClipperD clipper(precision);', 'R2.error-consumed'),
@@ -252,6 +253,7 @@ CONTROLS = {
         ("partial sum can wrap", H + "clipper.core.h", "    const uint64_t x2 = hi(a) * lo(b) + hi(x1);", "    const uint64_t x2 = hi(a) * lo(b) + x1;", "P.multiply-no-wrap"),
     ],
     "C20": [
+        ("Ellipse draws with a zero radiusX", H + "clipper.h", "    if (radiusX <= 0) return Path<T>();", "    if (radiusX < 0) return Path<T>();", "ELLIPSE.radii"),
         ("Distance squares the coordinate differences in the coordinate type", H + "clipper.h", "    return std::sqrt(DistanceSqr(pt1, pt2));", "    return std::sqrt(static_cast<double>((pt1.x - pt2.x) * (pt1.x - pt2.x) + (pt1.y - pt2.y) * (pt1.y - pt2.y)));", "INT64.product"),
         ("StripDuplicates removes a single trailing duplicate", H + "clipper.core.h", "      while (path.size() > 1 && path.back() == path.front()) path.pop_back();", "      if (path.size() > 1 && path.back() == path.front()) path.pop_back();", "TAIL.loop"),
         ('left half of RDP examined only from two interior vertices on', 'CPP/Clipper2Lib/include/clipper2/clipper.h', '    if (idx > begin + 1) RDP(path, begin, idx, epsSqrd, flags);', '    if (idx > begin + 2) RDP(path, begin, idx, epsSqrd, flags);', 'RDP.spans'),
